@@ -156,6 +156,39 @@ func (h *c11Run) step(q fileReq) (reply string, res []hotline.Transaction) {
 	post, ok2 := treeTokens(h.ts.Root)
 	h.steps++
 	h.trace = append(h.trace, q.String()+" => "+clipN(reply, 200))
+	// A move / rename that is answered with an error (or not at all) must be a no-op: a file's forks and partial
+	// data travel only WITH the file.  (If the data fork itself moved and a later side-file rename failed, the
+	// request is half done — that is the code's documented order and is not judged here.)
+	if (q.Kind == "move" || (q.Kind == "setinfo" && !q.HasComment)) && reply != "ok" && ok && ok2 {
+		if strings.Join(pre, " ") != strings.Join(post, " ") {
+			srcGone := false
+			if full, err := hotline.ReadPath(h.ts.Root, pfOrNil(q), q.Name); err == nil && full != h.ts.Root {
+				rel := hx([]byte(full[len(h.ts.Root)+1:]))
+				was, is := false, false
+				for _, t := range pre {
+					if strings.HasPrefix(t, rel+":") {
+						was = true
+					}
+				}
+				for _, t := range post {
+					if strings.HasPrefix(t, rel+":") {
+						is = true
+					}
+				}
+				srcGone = was && !is
+			}
+			if !srcGone {
+				c.Note("request", q.String())
+				c.Note("reply", reply)
+				c.Note("gone", treeDiff(pre, post))
+				c.Note("new", treeDiff(post, pre))
+				c.Note("history", h.trace)
+				c.Violation("refused-"+q.Kind+"-changed-tree", "a "+q.Kind+" that was refused (error / no reply) while the file stayed in place moved or removed its forks / partial data")
+			}
+		} else {
+			c.Dist("refused-" + q.Kind + "-noop")
+		}
+	}
 	c.Dist("op/" + q.Kind + "/" + strings.SplitN(reply, " ", 2)[0])
 	if !ok || !ok2 {
 		c.Dist("unmodelled-tree")
@@ -708,6 +741,11 @@ func c11History(c *Case) {
 					judge = false
 				}
 			}
+			if unique && ent.regular && dstDir != dir && r.Chance(12) {
+				// make the destination hold a FOLDER of that name: the data fork cannot be renamed onto it
+				h.step(fileReq{Kind: "newfolder", PF: npf, HasPF: nhas, Name: name})
+				judge = false
+			}
 			reply, _ := h.step(fileReq{Kind: "move", PF: pfb, HasPF: has, Name: name, NewPF: npf, HasNewPF: nhas})
 			if judge && reply == "ok" {
 				h.judgeCarried("move", before, dir, ent.name, dstDir, ent.name)
@@ -791,6 +829,19 @@ func init() {
 			os.WriteFile(filepath.Join(ts.Root, "x.incomplete.incomplete"), []byte("partial of x.incomplete"), 0644)
 			os.WriteFile(filepath.Join(ts.Root, "b.txt.incomplete"), []byte("partial"), 0644)
 			os.MkdirAll(filepath.Join(ts.Root, "d.incomplete.d"), 0755)
+			// a refused move is a no-op: `notes` (with comment and resource fork) cannot be moved onto the folder dst/notes
+			os.WriteFile(filepath.Join(ts.Root, "notes"), []byte("n"), 0644)
+			os.WriteFile(filepath.Join(ts.Root, ".rsrc_notes"), []byte("r"), 0644)
+			os.WriteFile(filepath.Join(ts.Root, "notes.incomplete"), []byte("p"), 0644)
+			os.MkdirAll(filepath.Join(ts.Root, "dst", "notes"), 0755)
+			os.MkdirAll(filepath.Join(ts.Root, "taken"), 0755)
+			h.step(fileReq{Kind: "setinfo", Name: []byte("notes"), Comment: []byte("keep me"), HasComment: true})
+			h.step(fileReq{Kind: "move", Name: []byte("notes"), NewPF: encItems([][]byte{[]byte("dst")}), HasNewPF: true})
+			h.step(fileReq{Kind: "setinfo", Name: []byte("notes"), NewName: []byte("taken"), HasNewName: true})
+			if ireply, _ := h.step(fileReq{Kind: "info", Name: []byte("notes")}); !strings.Contains(ireply, hx([]byte("keep me"))) {
+				c.Note("info_reply", ireply)
+				c.Violation("refused-move-changed-tree", "after a refused move / rename the file lost its comment")
+			}
 			h.listAndJudge(nil)
 			h.step(fileReq{Kind: "info", Name: []byte("a.incomplete.txt")})
 			h.step(fileReq{Kind: "setinfo", Name: []byte("a.incomplete.txt"), NewName: []byte("c.incomplete.txt"), HasNewName: true})
